@@ -83,6 +83,17 @@ func aCheck(root *JSchema, want []aProp, refuse bool) {
 			c := obj.Children()[i]
 			zzverif.Assert(c.InheritedFrom() == p.from, "each inherited property is marked with the type it came from")
 			zzverif.Assert(ischema.IsOptionalNode(c) == p.optional, "the optional status is kept")
+			// the same property is what a lookup BY NAME finds (validators look members up by key)
+			byName, found := obj.Child(p.key, false)
+			zzverif.Assert(found && byName == c && int(obj.Key(i).Index) == i, "a property looked up by name is the merged property of that name")
+		}
+		// the AST of the COMPILED object pairs every key with its own value and origin
+		if an, aerr := obj.ASTNode(); aerr == nil && len(an.Children) == len(want) {
+			for i, p := range want {
+				zzverif.Assert(an.Children[i].Key == p.key && an.Children[i].InheritedFrom == p.from, "the compiled object's AST lists own + inherited properties with their origin")
+			}
+		} else {
+			zzverif.Assert(false, "the compiled object has an AST with own + inherited properties")
 		}
 	}
 	ex, xerr := root.Example()
